@@ -161,7 +161,7 @@ Section Inv.
     intros m fabs H. unfold Persist.resume_subs.
     destruct (load_subs_total (nrange SUBS_START (N.to_nat NSUBS)) m) as [l El].
     - intros k Hk. apply in_nrange in Hk. replace k with (SUBS_START + (k - SUBS_START)) by lia. apply H. lia.
-    - rewrite El. destruct (length (filter (fun x => amem fabs (fst x)) l) =? length l)%nat.
+    - rewrite El. destruct (length (drop_where (fun x => negb (amem fabs (fst x))) l) =? length l)%nat.
       + eexists _, _. split; [reflexivity|constructor].
       + eexists _, _. split; [reflexivity|apply persist_subs_subop].
   Qed.
@@ -545,7 +545,7 @@ Section Inv.
     set (st0 := mkState blob (set_resump (s_ram st) res') (s_fs st) (s_pase st)
                         (aset (s_kv st) K_RESUMP (enc_res res'))) in *.
     (* the subscriptions of the fabric *)
-    set (sb := filter (fun x => negb (fst x =? g)) (r_subs (s_ram st))).
+    set (sb := drop_subs g (r_subs (s_ram st))).
     set (sops := if (length sb =? length (r_subs (s_ram st)))%nat then [] else persist_subs sb).
     assert (HI1s : Inv (mkState blob (set_subs (s_ram st0) sb) (s_fs st) (s_pase st) (replay (s_kv st0) sops))).
     { apply (inv_subs st0); [exact HI1|]. unfold sops.
@@ -601,7 +601,7 @@ Section Inv.
   Lemma fabric_removed_fabs : forall r g, r_fabs (fst (fabric_removed r g)) = r_fabs r.
   Proof.
     intros r g. unfold Persist.fabric_removed, Persist.drop_for.
-    destruct (Nat.eqb (length (filter (fun x => negb (fst x =? g)) (r_subs r))) (length (r_subs r))),
+    destruct (Nat.eqb (length (drop_subs g (r_subs r))) (length (r_subs r))),
              (amem (r_scenes r) g), (amem (r_ota r) g), (amem (r_icd r) g), (amem (r_binds r) g); reflexivity.
   Qed.
 
